@@ -438,7 +438,11 @@ func (g *Gen) applyContract(t callTarget, c *ssa.CallCommon, args []string, recv
 		g.vc.AssumeAt(guard, tm, "")
 	}
 	// interference before a blocking callee
-	if ct.Flags["yields"] != "" {
+	yields := ct.Flags["yields"] != ""
+	if !yields && t.fn != nil && len(t.fn.Blocks) > 0 && g.w.isRepoFunc(t.fn) {
+		yields = g.w.writeSet(t.fn, nil).Yields
+	}
+	if yields {
 		h = g.interference(h, guard, "call to "+t.key)
 		pre = h
 		envPre.now, envPre.old = pre, pre
